@@ -26,7 +26,7 @@ ENV = {"CARGO_NET_OFFLINE": "true", "RUSTFLAGS": "--cfg fuellabs_sway_verif",
        "CARGO_TARGET_DIR": os.path.join(HARNESS, "target")}
 
 
-def build(bin_name, timeout=3600):
+def build(bin_name, timeout=7200):
     """cargo build one harness binary; serialised across concurrent checks by a file lock."""
     os.makedirs(os.path.join(HARNESS, "target"), exist_ok=True)
     lock = open(os.path.join(HARNESS, "target", ".verif.lock"), "w")
